@@ -413,7 +413,8 @@ class Body:
 
     def rec_place(self, place, bb, idx, depth=0):
         base = self.rec_local(place["l"], bb, idx, depth)
-        if base[0] == "var":
+        if (base[0] == "var" and self.local_name.get(place["l"]) == base[1]) or \
+                (base[0] == "param" and base[1] == place["l"] and self.write_sites(place["l"])):
             f = None
             for p in place["p"]:
                 if p["k"] == "field":
@@ -421,7 +422,12 @@ class Body:
                     break
                 if p["k"] != "deref":
                     break
-            base = ("var", base[1], self.version(place["l"], f, bb, idx))
+            ver = self.version(place["l"], f, bb, idx)
+            if base[0] == "var":
+                base = ("var", base[1], ver)
+            elif ver:
+                # a `&mut` parameter whose pointee has been written before this read
+                base = ("param", base[1], base[2], ver)
         e = base
         projs = place["p"]
         i = 0
@@ -677,7 +683,7 @@ def _show(e):
         return repr(e)
     k = e[0]
     if k == "param":
-        return e[2]
+        return e[2] + ("@%d" % e[3] if len(e) > 3 else "")
     if k == "var":
         return "var:" + e[1] + ("@%d" % e[2] if len(e) > 2 and e[2] else "")
     if k == "upvar":
